@@ -56,6 +56,8 @@ func checkFrontEndInvokeRecord(c *report.Ctx) {
 
 func runC04(c *report.Ctx) {
 	checkFrontEndInvokeRecord(c)
+	checkNoServerTimeouts(c)
+	checkInvokeRefusalPath(c) // the in-flight reservation is released by nobody but its own invocation
 	c.Clause("0 the barrier primitive (shared with C11)")
 	checkGatePrimitive(c)
 	c.Clause("1 doInvoke order")
@@ -219,18 +221,7 @@ func runC04(c *report.Ctx) {
 	c.Check("R-ORDER", an.FuncName(ovh)+"/returns-await", "the overhead step's result is AwaitRuntimeReady's (the runtime asked for the next invocation)", okO, fpos(ovh), 1, "%v", okO)
 
 	c.Clause("2 handler serialisation")
-	for _, h := range []struct{ m, inner string }{{"HandleInit", "handleInit"}, {"HandleInvoke", "handleInvoke"}, {"HandleReset", "handleReset"}, {"HandleShutdown", "handleShutdown"}} {
-		f := fn(c, "L/rapid", "(*rapidContext)."+h.m)
-		if f == nil {
-			continue
-		}
-		held := an.NewHeld(f)
-		lp := f.Params[0].Name() + ".handlerExecutionMutex"
-		calls := an.CallsTo(f, "L/rapid."+h.inner)
-		ok := len(calls) == 1 && held.At(calls[0])[lp] && held.Defers[lp]
-		sites := callSites(c, "L/rapid."+h.inner)
-		c.Check("R-LOCK", "L/rapid.rapidContext."+h.m+"/serialised", "invocations, resets and shutdowns are handled one at a time (handler mutex held around the handler body, which has no other caller)", ok && len(sites) == 1, fpos(f), 2, "held: %v; callers of the body: %v", ok, siteFns(sites))
-	}
+	checkHandlersSerialised(c)
 	c.Clause("3 event content")
 	checkHeaderWiring(c)
 	c.Clause("4 completion requires response and next")
@@ -351,4 +342,21 @@ func closureArg(call ssa.CallInstruction) *ssa.Function {
 		}
 	}
 	return nil
+}
+
+// checkHandlersSerialised: init, invoke, reset and shutdown handling run one at a time, under the handler mutex
+// held by the wrapper for the whole of the handler body.
+func checkHandlersSerialised(c *report.Ctx) {
+	for _, h := range []struct{ m, inner string }{{"HandleInit", "handleInit"}, {"HandleInvoke", "handleInvoke"}, {"HandleReset", "handleReset"}, {"HandleShutdown", "handleShutdown"}} {
+		f := fn(c, "L/rapid", "(*rapidContext)."+h.m)
+		if f == nil {
+			continue
+		}
+		held := an.NewHeld(f)
+		lp := f.Params[0].Name() + ".handlerExecutionMutex"
+		calls := an.CallsTo(f, "L/rapid."+h.inner)
+		ok := len(calls) == 1 && held.At(calls[0])[lp] && held.Defers[lp]
+		sites := callSites(c, "L/rapid."+h.inner)
+		c.Check("R-LOCK", "L/rapid.rapidContext."+h.m+"/serialised", "invocations, resets and shutdowns are handled one at a time (handler mutex held around the handler body, which has no other caller)", ok && len(sites) == 1, fpos(f), 2, "held: %v; callers of the body: %v", ok, siteFns(sites))
+	}
 }
